@@ -6,6 +6,7 @@
    B <sig> ; <call>            -> 1 | 0                 (binds)
    R <sig> ; <call>            -> comma-separated reasons (empty if it binds)
    U <sigO> ; <sigW>           -> none | some <call>    (findUncovered)
+   A <sigO> ; <sigW>           -> <call> | <call> | ... (allUncovered; empty line if none)
    F <sigO> ; <sigW> ; <call>  -> bO bW                 (binds of both)
    W <sig>                     -> 1 | 0                 (Sig.wf)
 -/
@@ -64,6 +65,10 @@ def step (line : String) : String :=
       match findUncovered o w with
       | none => "none"
       | some c => "some " ++ showCall c
+    | _, _ => "bad-op"
+  | "A", [o, w] =>
+    match parseSig o, parseSig w with
+    | some o, some w => " | ".intercalate ((allUncovered o w).map showCall)
     | _, _ => "bad-op"
   | "F", [o, w, c] =>
     match parseSig o, parseSig w, parseCall c with
